@@ -515,6 +515,45 @@ def char_lits(n):
     return out
 
 
+def linecol_updates(fn):
+    """(line_incs, col_steps) of a (line, col) walk, in either spelling: one tuple accumulator assigned `(l + 1, 1)` /
+    `(l, c + 1)`, or two locals `line += 1; col = 1` / `col += 1` returned as `(line, col)`.
+    line_incs: nodes that advance the line; col_steps: (node, step expression) that advance the column."""
+    line_incs, col_steps = [], []
+    for n in walk(fn["body"]):
+        if kind(n) == "Assign" and kind(peel(n["r"])) == "Tup" and len(peel(n["r"])["elems"]) == 2:
+            a, b = [peel(x) for x in peel(n["r"])["elems"]]
+            if kind(a) == "Binary" and a["op"] == "+":
+                line_incs.append((n, a["r"], b))
+            elif kind(b) == "Binary" and b["op"] == "+":
+                col_steps.append((n, b["r"]))
+            else:
+                col_steps.append((n, b))
+    if line_incs or col_steps:
+        return line_incs, col_steps
+    # two locals returned as a tuple
+    ids = None
+    for leaf in hirq.tail_leaves(fn["body"]) + [x["e"] for x in walk(fn["body"]) if kind(x) == "Ret" and x.get("e") is not None]:
+        v = peel(leaf)
+        if kind(v) == "Tup" and len(v["elems"]) == 2 and all(kind(peel(e)) == "Path" and peel(e).get("res") == "local" for e in v["elems"]):
+            ids = (peel(v["elems"][0])["id"], peel(v["elems"][1])["id"])
+    if ids is None:
+        return [], []
+    for n in walk(fn["body"]):
+        if kind(n) == "AssignOp" and n.get("op") in ("+=", "+"):
+            lid = hirq.local_id(n["l"])
+            if lid == ids[0]:
+                # the column reset that goes with it: an assignment `col = 1` in the same block
+                line_incs.append((n, n["r"], None))
+            elif lid == ids[1]:
+                col_steps.append((n, n["r"]))
+        elif kind(n) == "Assign" and hirq.local_id(n["l"]) == ids[0] and kind(peel(n["r"])) == "Binary" and peel(n["r"])["op"] == "+":
+            line_incs.append((n, peel(n["r"])["r"], None))
+        elif kind(n) == "Assign" and hirq.local_id(n["l"]) == ids[1] and kind(peel(n["r"])) == "Binary" and peel(n["r"])["op"] == "+":
+            col_steps.append((n, peel(n["r"])["r"]))
+    return line_incs, col_steps
+
+
 def linebreak(rep, c, sfx):
     r = rep.rule("C04.LINEBREAK" + sfx, 2,
                  "the two line counters agree on what ends a line: LineIndex::new records a line start only "
@@ -557,14 +596,9 @@ def linebreak(rep, c, sfx):
     if pl is None:
         r.lost("Position::line_col")
         return
-    # assignments whose rhs tuple increments component 0
+    # the updates that advance the line number
     ctx = hirq.Ctx(pl)
-    incs = []
-    for n in walk(pl["body"]):
-        if kind(n) == "Assign" and kind(peel(n["r"])) == "Tup":
-            first = peel(peel(n["r"])["elems"][0])
-            if kind(first) == "Binary" and first["op"] == "+" and hirq.lit_value(first["r"]) == 1:
-                incs.append(n)
+    incs = [n for (n, step, col) in linecol_updates(pl)[0]]
     if not incs:
         r.lost("line increments in Position::line_col")
     for n in incs:
